@@ -171,3 +171,33 @@ def check_c06(cfg, ep, sup, drive):
                 if got[:len(rec)] != rec or len(got) > len(rec) + 1:
                     V.append(("step-execution-count", f"{n}: executed seqs {got[:20]} recorded {rec[:20]}"))
     return V
+
+
+def check_sched_terms(cfg, nph, cph, rec):
+    """the scheduling terms recorded with each step (AsyncStepRecord) are the values the start law used for that step:
+    ts_scheduled = k*P + phase, ts_max = latest blocking arrival, ts_end_prev = end of the previous step, phase_scheduled = the
+    FREQUENCY drift in force for this step, phase_last / phase_inputs / phase = the three shifts relative to the scheduled time"""
+    V = []
+    R = rec["rows"]; M = rec["msgs"]
+    for n, nd in cfg["nodes"].items():
+        c = R[n]
+        if "phase_scheduled" not in c: continue
+        P = nd["period"]; phi = nph[n]
+        ins = {k: cc for k, cc in cfg["conns"].items() if cc["in"] == n}
+        drift = 0; end_prev = 0
+        for k in range(len(c["seq"])):
+            s = k * P + phi
+            tsmax = 0
+            for key, cc in ins.items():
+                if cc["blocking"]:
+                    for m in M.get(key, []):
+                        if m[1] == k: tsmax = max(tsmax, m[3])
+            want = dict(ts_scheduled=s, ts_max=tsmax, ts_end_prev=end_prev, phase_scheduled=drift, phase_last=end_prev - s,
+                        phase_inputs=tsmax - s, phase=c["start"][k] - s)
+            for fld, w in want.items():
+                if fld in c and c[fld][k] != w:
+                    V.append((f"recorded-scheduling-term-unfaithful:{fld}", f"{n}[{k}] recorded {fld} = {c[fld][k]}, the value in force for this step was {w}"))
+                    return V
+            drift = drift + max(0, (end_prev - s) - drift) if nd["sched"] == "FREQ" else 0
+            end_prev = c["end"][k]
+    return V
